@@ -2,6 +2,7 @@ SPECIFICATION Spec
 CONSTANTS
   MaxIdx = 4
   MaxTerm = 2
+  MaxAppend = 2
   MaxReady = 3
   InstallSaveFirst = FALSE
   SnapshotMustBeInWal = TRUE
